@@ -257,3 +257,8 @@ fn test_toposort_impl_cycles() {
     let res = toposort_impl(&dag);
     assert!((res == vec![0, 1, 2]) || (res == vec![1, 0, 2]))
 }
+
+#[cfg(feature = "verif-hooks")]
+pub(crate) fn verif_toposort_impl(graph: &Vec<Vec<usize>>) -> Vec<usize> {
+    toposort_impl(graph)
+}
